@@ -404,6 +404,8 @@ def _normalise(msg):
     s = str(msg).strip().split("\n")[0]
     s = re.sub(r"<c13-\d+-\d+>", "<gen>", s)
     s = re.sub(r"Unbound name: [^\s]+", "Unbound name: _", s)
+    # the same refusal since fix 6f5e4de when the unbound name is assigned later in the function (one symptom class)
+    s = s.replace(" (local variable referenced before assignment)", "")
     s = re.sub(r"'[^']*'", "'_'", s)
     s = re.sub(r"\bv\d+\b", "vN", s)
     s = re.sub(r"\d+", "N", s)
